@@ -55,6 +55,8 @@ def _kepler_cuts():
     def cut_e(it, frame):
         """at `e = Angle(e0 * f, radians=True)`: the loop has ended"""
         L = frame.locals
+        if any(k not in L for k in ("e0", "f", "ecc", "m", "d")):
+            return True             # an assignment to `e` on a path without the bisection: the harness states the property there
         e0, f, ecc, m, d = (Num.of(L[k]) for k in ("e0", "f", "ecc", "m", "d"))
         Estar = _estar()
         pi = pi_()
@@ -85,6 +87,14 @@ def h_kepler(ctx):
         ctx.vc("E - e sin E == M (mod 360) to 5e-8 degree", abs(res) < 5e-8)
         return
     pi = pi_()
+    if "after_loop" not in ctx.it.info or "M_rad" not in ctx.it.info:
+        # a path that returns without the bisection: its result must satisfy the property itself, exactly
+        Er = E * pi / 180
+        t = (Er - ecc * sin_(Er) - M * pi / 180) / (2 * pi)
+        ctx.vc("a result that does not come from the bisection satisfies E - e sin E == M (mod 360 degrees) all the same", t == floor_(t))
+        ctx.vc("... in the same half revolution as the reduced M (|E| <= 180) and, possible without tan(E/2) only for e == 0, v == E",
+               and_(E >= -180, E <= 180, ecc == 0, v == E))
+        return
     e0, f, m = ctx.it.info["after_loop"]
     Mr = Num.of(ctx.it.info["M_rad"])
     ctx.vc("the reduced anomaly: M_rad == M pi / 180", Mr * 180 == M * pi)
@@ -109,6 +119,9 @@ def h_kepler_canary(ctx):
     out = ctx.call(COORD + "kepler_equation", ecc, ma)
     if ctx.native:
         ctx.vc("canary", False)
+        return
+    if "after_loop" not in ctx.it.info:
+        ctx.vc("canary (path without the loop)", False)
         return
     e0, f, m = ctx.it.info["after_loop"]
     ctx.vc("canary: e0 equals E* exactly", e0 == _estar())
@@ -192,19 +205,52 @@ def h_nodes(ctx, fn, ascending):
     n = 0.9856076686 / (a sqrt a) degrees per day, r = a (1 - e cos E); parabolic: s = tan(v/2), t = T + 27.403895 s (s^2 + 3) q sqrt q,
     r = q (1 + s^2) (Meeus ch. 39)"""
     from pyvc.api import atan_
-    if ctx.native:
-        return
     om, w = angle(ctx, "omega")
     T = ctx.real("T", 990000, 3200000)
     t = ctx.obj("Epoch")
     ctx.setfield(t, "_jde", T)
     if fn == "passage_nodes_elliptic":
-        e = ctx.real("e", 0, 1, hi_open=True)
+        e = ctx.real("e", 0, 1, hi_open=True, sample=(0, 0.9))
         a = ctx.real("a", Fraction(1, 10), 100)
         out = ctx.call(COORD + fn, om, e, a, t, ascending)
     else:
         q = ctx.real("q", Fraction(1, 10), 100)
         out = ctx.call(COORD + fn, om, q, t, ascending)
+    if ctx.native:
+        # replay aid: read the returned instant back through Kepler's equation / Barker's equation
+        tt, r = out[0].jde(), out[1]
+        want = ((-w) if ascending else (180.0 - w))
+        if fn == "passage_nodes_elliptic":
+            if e > 0.9:
+                return
+            n = 0.9856076686 / (a * math.sqrt(a))
+            Mr = math.radians(n * (tt - T))
+            Ee = Mr
+            for _ in range(200):
+                Ee -= (Ee - e * math.sin(Ee) - Mr) / (1 - e * math.cos(Ee))
+            vv = math.degrees(2 * math.atan2(math.sqrt(1 + e) * math.sin(Ee / 2), math.sqrt(1 - e) * math.cos(Ee / 2)))
+            rr = a * (1 - e * math.cos(Ee))
+        else:
+            W = (tt - T) / (27.403895 * q * math.sqrt(q))
+            sv = 0.0
+            for _ in range(200):
+                sv = (2 * sv ** 3 + W) / (3 * (sv * sv + 1))
+            vv, rr = math.degrees(2 * math.atan(sv)), q * (1 + sv * sv)
+        dv = (vv - want + 180.0) % 360.0 - 180.0
+        ctx.vc("at the returned instant the true anomaly is that of the node (1e-6 degree) and r is the radius there", abs(dv) < 1e-6 and abs(rr - r) < 1e-8 * r)
+        return
+    if not ctx.uf_terms("tan"):
+        # a path that never evaluates tan(v/2): only the passage through the line of apsides can be had that way
+        tt, r = Num.of(ctx.field(out[0], "_jde")), Num.of(out[1])
+        kk = w / 360
+        on_axis = kk == floor_(kk)
+        if fn == "passage_nodes_elliptic":
+            n = Num.of(Fraction("0.9856076686")) / (a * sqrt_(a))
+            good = and_(on_axis, tt == T, r == a * (1 - e)) if ascending else and_(on_axis, tt == T + 180 / n, r == a * (1 + e))
+        else:
+            good = and_(on_axis, tt == T, r == q) if ascending else False
+        ctx.vc("a result computed without tan(v/2) is the node passage all the same (only possible on the line of apsides, omega == 0)", good)
+        return
     (half,), = ctx.uf_terms("tan")[-1:]
     pi = pi_()
     want = (-w) if ascending else (180 - w)
@@ -310,6 +356,29 @@ def b_kepler(rng, tier):
         if not (2 * math.pi * bb * (1 - 1e-9) <= L <= 2 * math.pi * a * (1 + 1e-9)):
             ok, det = False, ("length bounds", L, 2 * math.pi * bb, 2 * math.pi * a)
         yield ((e, a, w), ok, det)
+    # phase angle and illuminated fraction, including bodies exactly in line with the Sun and the Earth (two-decimal distances whose
+    # cosine rounds a unit of the last place outside [-1, 1])
+    tri = [(0.7, 0.3, 1.0), (0.3, 0.7, 1.0), (1.3, 0.3, 1.0), (0.1, 0.2, 0.3), (5.2, 4.2, 1.0)]
+    for _ in range(2000 if tier == "thorough" else 300):
+        x, y = round(rng.uniform(0.05, 9.0), 2), round(rng.uniform(0.05, 9.0), 2)
+        z = rng.choice((round(x + y, 2), round(abs(x - y), 2), round(rng.uniform(abs(x - y), x + y), 2)))
+        if z > 0:
+            tri.append((x, y, z))
+    for (x, y, z) in tri:
+        ok, det = True, None
+        fx, fy, fz = (Fraction(repr(v)) for v in (x, y, z))          # the decimal values meant (two decimals): exact comparison
+        feasible = abs(fx - fy) <= fz <= fx + fy
+        try:
+            i_ = C.phase_angle(float(x), float(y), float(z))()
+            k_ = C.illuminated_fraction(float(x), float(y), float(z))
+            if not feasible:
+                ok, det = False, ("an impossible triangle was accepted", i_, k_)
+            elif not (0.0 <= i_ <= 180.0) or abs(k_ - (1 + math.cos(math.radians(i_))) / 2.0) > 1e-9:
+                ok, det = False, ("k == (1 + cos i) / 2", i_, k_)
+        except ValueError as ex:
+            if feasible:
+                ok, det = False, ("ValueError for a possible (degenerate) triangle", repr(ex))
+        yield (("phase", x, y, z), ok, det)
 
 
 P.frame_check()
